@@ -38,6 +38,7 @@ def run(R, env):
     R.rule("C01.R3", "SubmitBatch: the value subtracted from total_native_token and the value stored as the pending batch's expected_native_unstaked are the same unbond computation")
     R.rule("C01.R4", "sweep: the only other delta is total_fees += total_native_token; total_native_token := 0, confined to the region total_liquid_stake_token.is_zero() && !total_native_token.is_zero()")
     R.rule("C01.R5", "State.total_native_token changes only from {instantiate, LiquidStake, SubmitBatch, ReceiveRewards, ResumeContract}; recover, reply, sudo, Withdraw, FeeWithdraw and migrations never change it")
+    R.rule("C01.R6", "value refunded by a failed or timed-out transfer is re-sent only by a recovery that selects exactly the refundable packets of the requested receiver, sums what it removes and goes through the tracked gate; ack / timeout callbacks only change the status of the contract's own packets (rule bodies of C07.R4-R8)")
     R.assume("history-level equality follows by induction from these per-transition identities, C07's packet tracking and no use of ResumeContract's manual override; it is not itself decided")
     dctx, table = handlers(prog, CRATE)
     sites = shared.site_contexts(prog, CRATE, env)
@@ -182,6 +183,10 @@ def run(R, env):
     else:
         R.ob("C01.R3", "SubmitBatch:dispatched", False, "no handler", fn="staking::contract::execute")
 
+    # ------------------------------------------------------------------ R6 (shared rule bodies)
+    from engine.runner import Remap
+    from . import C07
+    C07.run(Remap(R, {"C07.R4": "C01.R6", "C07.R5": "C01.R6", "C07.R6": "C01.R6", "C07.R7": "C01.R6", "C07.R8": "C01.R6"}), env)
     # ------------------------------------------------------------------ R5
     ch, nops = shared.field_change_sites(prog, env, CRATE, "state", ["total_native_token"], sites)
     R.floor("C01.R5", "STATE write sites inspected", nops, 8)
